@@ -180,6 +180,9 @@ def gen_hello(r, dtls=False):
         t = r.choice(EXT_POOL + T.GREASE) if r.random() < 0.85 else r.choice([x for x in (r.getrandbits(16),) if x not in (0, 16)] or [7])
         ln = r.choice([0, 0, 1, 2, 7, 32, 200])
         extras.append((t, bytes(r.getrandbits(8) for _ in range(ln))))
+    if r.random() < 0.9:  # usually no repeated extension type (RFC 8446 4.2); a small share keeps repeats of unknown types
+        seen_t = set()
+        extras = [e for e in extras if not (e[0] in seen_t or seen_t.add(e[0]))]
     big = r.random() < 0.04
     if big:
         extras.append((21, b"\x00" * r.choice([3000, 16400, 20000])))
@@ -740,7 +743,12 @@ def ref_verdict(data, dtls=False):
                 return "reject", "record overflow"
             used += n
             off += hdr + n
-        return "hello", T.parse(hs, dtls=dtls)
+        parsed = T.parse(hs, dtls=dtls)
+        if parsed["duplicate_types"]:
+            # a hello repeating an extension type is malformed (RFC 8446 4.2); which of two server_name / ALPN
+            # extensions counts is undefined, so the reference does not accept it (tolerance 3.7: recorded only)
+            return "reject", "duplicate extension type"
+        return "hello", parsed
     except T.ParseError as e:
         return "reject", str(e)
 
